@@ -336,6 +336,18 @@ static void runCov(const CovCase& c, Ctx& ctx, bool sym)
   if (r1 == 0 || c1 == 0) { ctx.label("empty-matrix"); return; }
   double scale = 0;
   for (double v : P) scale = std::max(scale, std::fabs(v));
+  // the entries are sums / differences (variogram mode) of terms of the size of the sills: that is the scale of the
+  // round-off, even when the entries themselves are tiny (far points)
+  {
+    double ss = 0;
+    for (auto& st : k.st)
+    {
+      double mx = 0;
+      for (double v : st.sill) mx = std::max(mx, std::fabs(v));
+      ss += c.unitary ? 1. : mx;
+    }
+    scale = std::max(scale, ss);
+  }
   if (!(scale > 0)) scale = 1.;
   double eta = etaIn(k);
   double tabs = (1e-12 + 20. * eta) * scale;
@@ -359,6 +371,284 @@ static void runCovRect(const CovCase& c, Ctx& ctx) { runCov(c, ctx, false); }
 static void runCovSym(const CovCase& c, Ctx& ctx) { runCov(c, ctx, true); }
 VERIF_SUB(covmat_rect, CovCase, genCov, runCovRect);
 VERIF_SUB(covmat_sym, CovCase, genCov, runCovSym);
+
+// ====================================================================== 2. unique vs wide moving ==
+struct UMCase
+{
+  KCase k;
+  int extra = 0, hasRadius = 1;
+  double radFactor = 2.;
+  std::vector<double> ncoef, nang;
+  template<class A> void io(A& a) { a("k", k)("extra", extra)("hasRadius", hasRadius)("radFactor", radFactor)("ncoef", ncoef)("nang", nang); }
+};
+static UMCase genUM()
+{
+  UMCase c;
+  GenOpt o;
+  o.movingPct = 0;
+  o.heteroPct = 45;
+  o.selPct = 30;
+  c.k = genCase(o);
+  c.extra = G::pick<int>({0, 0, 1, 5, 1000});
+  c.hasRadius = G::pct(75) ? 1 : 0;
+  c.radFactor = G::lu(1.5, 10.);
+  bool iso = G::pct(50);
+  for (int d = 0; d < c.k.ndim; d++) c.ncoef.push_back(iso ? 1. : G::lu(0.25, 4.));
+  if (c.k.ndim >= 2 && G::pct(50))
+  {
+    int na = (c.k.ndim == 2) ? 1 : 3;
+    for (int q = 0; q < na; q++) c.nang.push_back(G::r(-180, 180, 2));
+  }
+  return c;
+}
+static void runUM(const UMCase& uc, Ctx& ctx)
+{
+  const KCase& c = uc.k;
+  labelCase(c, ctx);
+  ctx.sig = Hash().add(signature(c)).add(uc.hasRadius).add(uc.extra).add((int)uc.nang.size()).h;
+  int n = c.n(), nt = c.ntarg(), nv = c.nvar;
+  // moving twin: radius larger than any data-target distance in the neighbourhood metric, nmaxi >= n, nmini 1, one sector
+  KCase m = c;
+  m.moving = 1;
+  m.nmaxi = n + uc.extra;
+  m.nmini = 1;
+  m.nsect = 1;
+  m.nsmax = 0;
+  m.hasRadius = uc.hasRadius;
+  m.ncoef = uc.ncoef;
+  m.nang = uc.nang;
+  double dmax = 0, cmin = 1e300;
+  for (int k = 0; k < nt; k++)
+    for (int i = 0; i < n; i++) dmax = std::max(dmax, vfgeo::euclid(c.ndim, c.targ.p(k), c.data.p(i)));
+  for (double v : uc.ncoef) cmin = std::min(cmin, v);
+  m.radius = uc.radFactor * std::max(dmax, 1e-3 * c.L) / cmin;
+  std::vector<int> all = admissibleAll(c);
+  for (int k = 0; k < nt; k++)
+  {
+    NbRef r = refNeigh(m, m.targ.p(k));
+    if (r.nb != all) { ctx.fail("harness:moving-not-all", "generated moving neighbourhood does not hold all samples"); return; }
+  }
+  World wu, wm;
+  if (!buildWorld(c, wu, ctx)) return;
+  if (!buildWorld(m, wm, ctx)) return;
+  bool wantVarz = c.flagVarz != 0;
+  std::string V = std::string(c.family());
+  ctx.at("kriging:unique:" + V);
+  KRes A = runK(wu.dbin.get(), wu.dbout.get(), wu.model.get(), wu.neigh.get(), nv, false, VectorInt(), VectorInt(), "KU", wantVarz);
+  ctx.at("kriging:moving:" + V);
+  KRes B = runK(wm.dbin.get(), wm.dbout.get(), wm.model.get(), wm.neigh.get(), nv, false, VectorInt(), VectorInt(), "KM", wantVarz);
+  if (A.err != B.err || A.cols != B.cols)
+  {
+    ctx.fail("unique-moving:status:" + V, fmt("unique: err %d cols %d; moving: err %d cols %d", A.err, (int)A.cols, B.err, (int)B.cols));
+    return;
+  }
+  if (A.err || !A.cols) { ctx.label("kriging-error-both"); return; }
+  if (all.empty()) { ctx.label("no-data"); return; }
+  Orc orc;
+  if (!makeOracle(c, wu.dbout.get(), orc)) { ctx.fail("harness:model", "oracle model"); return; }
+  double eta = etaIn(c);
+  int nChecked = 0, nIll = 0;
+  for (int k = 0; k < nt; k++)
+  {
+    Sys S;
+    orc.o->solve(k, pointGeom(c.ndim, c.targ.p(k)), all, S);
+    if (!S.solved || !(S.kappa <= kKappaMax)) { nIll++; continue; }
+    nChecked++;
+    for (int tv = 0; tv < nv; tv++)
+    {
+      Tol t = tolOf(S, eta, tv, 0.);
+      size_t q = (size_t)(k * nv + tv);
+      if (!cmpVal(ctx, "unique-moving:estim:" + V, "estim", k, tv, A.est[q], B.est[q], t.e, S.kappa)) return;
+      if (!cmpVal(ctx, "unique-moving:stdev:" + V, "stdev", k, tv, A.sd[q], B.sd[q], t.v, S.kappa, true)) return;
+      if (wantVarz && !cmpVal(ctx, "unique-moving:varz:" + V, "varz", k, tv, A.vz[q], B.vz[q], t.v, S.kappa)) return;
+    }
+  }
+  if (nChecked == 0 && nIll > 0) ctx.inconclusive("ill-conditioned");
+  ctx.nontrivial(nChecked > 0 && (int)all.size() >= 2 && interesting(c));
+}
+VERIF_SUB(unique_vs_moving, UMCase, genUM, runUM);
+
+// ====================================================================== 3. xvalid unique vs leave-one-out ==
+static KCase genXV()
+{
+  GenOpt o;
+  o.movingPct = 0;
+  o.nvarMin = 1;
+  o.nvarMax = 1;
+  o.nMax = 24;
+  o.heteroPct = 40;
+  o.selPct = 30;
+  o.verrPct = 12;
+  o.family = G::pick<int>({0, 1, 1, 2, 2, 3});
+  return genCase(o);
+}
+static void runXV(const KCase& c, Ctx& ctx)
+{
+  labelCase(c, ctx);
+  ctx.sig = signature(c);
+  World w;
+  if (!buildWorld(c, w, ctx)) return;
+  int n = c.n();
+  std::string V = c.family();
+  std::unique_ptr<NeighUnique> nu(NeighUnique::create());
+  ctx.at("xvalid:unique:" + V);
+  int err = xvalid(w.dbin.get(), w.model.get(), nu.get(), false, -1, -1, 0, VectorInt(), NamingConvention("XV"));
+  std::vector<int> all = admissibleAll(c);
+  if (err != 0)
+  {
+    ctx.fail("xvalid:error:" + V, "xvalid() in unique neighbourhood returns an error on a valid configuration");
+    return;
+  }
+  if (w.dbin->getUID("XV.z1.estim") < 0 || w.dbin->getUID("XV.z1.stdev") < 0)
+  {
+    ctx.fail("xvalid:columns:" + V, "xvalid(flag_xvalid_est=-1, flag_xvalid_std=-1) did not create XV.z1.estim / XV.z1.stdev");
+    return;
+  }
+  VectorDouble xe = w.dbin->getColumn("XV.z1.estim", false), xs = w.dbin->getColumn("XV.z1.stdev", false);
+  if ((int)xe.size() != n || (int)xs.size() != n) { ctx.fail("xvalid:columns:" + V, "result columns have the wrong size"); return; }
+  if ((int)all.size() < 2) { ctx.label("fewer-than-2-data"); return; }
+
+  // conditioning of the full system (the shortcut inverts it once)
+  double eta = etaIn(c);
+  Orc full;
+  if (!makeOracle(c, w.dbin.get(), full)) { ctx.fail("harness:model", "oracle model"); return; }
+  Sys SF;
+  full.o->solve(0, pointGeom(c.ndim, c.data.p(all[0])), all, SF);
+  if (!SF.solved || !(SF.kappa <= kKappaMax)) { ctx.inconclusive("ill-conditioned"); return; }
+  bool hasVerr = !c.verr.empty();
+  int nChecked = 0, nIll = 0;
+  for (int i : all)
+  {
+    // explicit leave-one-out: krige at x_i from the data set without sample i
+    KCase l = oneTarget(dropSample(c, i), c.data.p(i), c.nfex ? &c.fdat[(size_t)(i * c.nfex)] : nullptr);
+    l.moving = 0;
+    World wl;
+    if (!buildWorld(l, wl, ctx)) return;
+    ctx.at("kriging:loo:" + V);
+    KRes R = runK(wl.dbin.get(), wl.dbout.get(), wl.model.get(), wl.neigh.get(), 1, false, VectorInt(), VectorInt(), "LOO", false);
+    if (R.err || !R.cols) { ctx.fail("xvalid:loo-error:" + V, "leave-one-out kriging returns an error"); return; }
+    Orc lo;
+    if (!makeOracle(l, wl.dbout.get(), lo)) { ctx.fail("harness:model", "oracle model"); return; }
+    Sys S;
+    std::vector<int> nb = admissibleAll(l);
+    lo.o->solve(0, pointGeom(c.ndim, c.data.p(i)), nb, S);
+    if (!S.solved || !(S.kappa <= kKappaMax)) { nIll++; continue; }
+    nChecked++;
+    double kap = std::max(S.kappa, SF.kappa);
+    Tol t = tolOf(S, eta, 0, SF.kappa);
+    // the shortcut goes through 1 / inv(A)(i,i): its error is |d inv(A)| var^2 <= kappa eps |inv(A)| var^2
+    LD var = std::max((LD)0, S.var[0]);
+    LD z1 = 0;
+    for (int j : all) z1 += fabsl((LD)c.z[(size_t)j] - (c.order < 0 ? (LD)c.means[0] : 0.L));
+    LD relB = (LD)epsK(kap, eta) * (LD)SF.sminInv;
+    t.v += relB * var * var;
+    t.e += relB * var * z1 * 2;
+    if (!cmpVal(ctx, "xvalid:estim:" + V, "Z*", i, 0, xe[i], R.est[0], t.e, kap)) return;
+    std::string ks = hasVerr ? "xvalid:stdev:verr:" + V : "xvalid:stdev:" + V;
+    if (!cmpVal(ctx, ks, "S", i, 0, xs[i], R.sd[0], t.v, kap, true)) return;
+  }
+  // masked / undefined samples keep undefined results
+  for (int i = 0; i < n; i++)
+    if ((!c.active(i) || !c.anyDef(i)) && !(isNA(xe[i]) && isNA(xs[i])))
+    {
+      ctx.fail("xvalid:inactive-result:" + V, fmt("sample %d is masked or undefined but received results %g / %g", i, xe[i], xs[i]));
+      return;
+    }
+  if (nChecked == 0 && nIll > 0) ctx.inconclusive("ill-conditioned");
+  ctx.nontrivial(nChecked >= 2 && (interesting(c) || c.order >= 0 || (int)all.size() < n));
+}
+VERIF_SUB(xvalid_unique, KCase, genXV, runXV);
+
+// ====================================================================== 5. block (1 point) vs point ==
+static KCase genB1()
+{
+  GenOpt o;
+  o.blockMode = G::pick<int>({1, 2});
+  o.nMax = 30;
+  o.heteroPct = 45;
+  o.selPct = 25;
+  KCase c = genCase(o);
+  for (auto& v : c.ndisc) v = 1;
+  return c;
+}
+static void runB1(const KCase& c, Ctx& ctx)
+{
+  labelCase(c, ctx);
+  ctx.sig = signature(c);
+  World w;
+  if (!buildWorld(c, w, ctx)) return;
+  int nt = c.ntarg(), nv = c.nvar;
+  VectorInt nd;
+  for (int v : c.ndisc) nd.push_back(v);
+  bool wantVarz = c.flagVarz != 0;
+  std::string V = std::string(c.family()) + (c.moving ? ":moving" : ":unique");
+  ctx.at("kriging:block1:" + V);
+  KRes A = runK(w.dbin.get(), w.dbout.get(), w.model.get(), w.neigh.get(), nv, true, nd, VectorInt(), "KB", wantVarz);
+  World w2;
+  if (!buildWorld(c, w2, ctx)) return;
+  ctx.at("kriging:point:" + V);
+  KRes B = runK(w2.dbin.get(), w2.dbout.get(), w2.model.get(), w2.neigh.get(), nv, false, VectorInt(), VectorInt(), "KP", wantVarz);
+  if (A.err != B.err || A.cols != B.cols)
+  {
+    ctx.fail("block1:status:" + V, fmt("block: err %d cols %d; point: err %d cols %d", A.err, (int)A.cols, B.err, (int)B.cols));
+    return;
+  }
+  if (A.err || !A.cols) { ctx.label("kriging-error-both"); return; }
+  Orc orc;
+  if (!makeOracle(c, w.dbout.get(), orc)) { ctx.fail("harness:model", "oracle model"); return; }
+  double eta = etaIn(c);
+  int nChecked = 0, nIll = 0, maxNb = 0;
+  for (int k = 0; k < nt; k++)
+  {
+    std::vector<double> x0((size_t)c.ndim);
+    for (int d = 0; d < c.ndim; d++) x0[(size_t)d] = w.dbout->getCoordinate(k, d);
+    NbRef nr = refNeigh(c, x0.data());
+    if (nr.ambiguous) { ctx.label("target:ambiguous-neigh"); continue; }
+    size_t q0 = (size_t)(k * nv);
+    if (nr.empty())
+    {
+      for (int tv = 0; tv < nv; tv++)
+        if (!bothNA(A.est[q0 + tv], B.est[q0 + tv])) { ctx.fail("block1:empty-neigh:" + V, fmt("target %d: empty neighbourhood, block %g point %g", k, A.est[q0 + tv], B.est[q0 + tv])); return; }
+      continue;
+    }
+    Sys S;
+    orc.o->solve(k, pointGeom(c.ndim, x0.data()), nr.nb, S);
+    if (!S.solved || !(S.kappa <= kKappaMax)) { nIll++; continue; }
+    nChecked++;
+    maxNb = std::max(maxNb, (int)nr.nb.size());
+    for (int tv = 0; tv < nv; tv++)
+    {
+      Tol t = tolOf(S, eta, tv, 0.);
+      if (!cmpVal(ctx, "block1:estim:" + V, "estim", k, tv, A.est[q0 + tv], B.est[q0 + tv], t.e, S.kappa)) return;
+      if (wantVarz && !cmpVal(ctx, "block1:varz:" + V, "varz", k, tv, A.vz[q0 + tv], B.vz[q0 + tv], t.v, S.kappa)) return;
+    }
+    // weights (krigtest: iech0 = 0 loops over all targets, usable only with one target)
+    if (k >= 1 || nt == 1)
+    {
+      ctx.at("krigtest:block1:" + V);
+      Krigtest_Res ka = krigtest(w.dbin.get(), w.dbout.get(), w.model.get(), w.neigh.get(), k, EKrigOpt::BLOCK, nd, false, false);
+      ctx.at("krigtest:point:" + V);
+      Krigtest_Res kb = krigtest(w2.dbin.get(), w2.dbout.get(), w2.model.get(), w2.neigh.get(), k, EKrigOpt::POINT, VectorInt(), false, false);
+      if (ka.wgt.getNRows() != kb.wgt.getNRows() || ka.wgt.getNCols() != kb.wgt.getNCols() || ka.wgt.getNRows() != S.N)
+      {
+        ctx.fail("block1:wgt-dims:" + V, fmt("target %d: block weights %dx%d, point weights %dx%d, system %d", k, ka.wgt.getNRows(), ka.wgt.getNCols(), kb.wgt.getNRows(), kb.wgt.getNCols(), S.N));
+        return;
+      }
+      for (int tv = 0; tv < ka.wgt.getNCols() && tv < nv; tv++)
+      {
+        LD wmax = 0;
+        for (int r = 0; r < S.N; r++) wmax = std::max(wmax, fabsl(S.sol(r, tv)));
+        LD tol = 2 * (LD)epsK(S.kappa, eta) * wmax + (LD)10 * (LD)epsIn(eta) * (LD)S.covScale * (LD)S.sminInv * sqrtl((LD)S.N);
+        for (int r = 0; r < S.N; r++)
+          if (!cmpVal(ctx, "block1:wgt:" + V, "weight", k, tv, ka.wgt.getValue(r, tv), kb.wgt.getValue(r, tv), tol, S.kappa)) return;
+      }
+      ctx.label("weights-compared");
+    }
+  }
+  if (nChecked == 0 && nIll > 0) ctx.inconclusive("ill-conditioned");
+  ctx.nontrivial(nChecked > 0 && maxNb >= 2 && (interesting(c) || c.gridRotated()));
+}
+VERIF_SUB(block1_vs_point, KCase, genB1, runB1);
 
 //@@NEXT@@
 VERIF_MAIN()
